@@ -4,6 +4,9 @@ package c20
 import (
 	"bytes"
 	"net/http"
+	"slices"
+	"sort"
+	"strings"
 	"sync"
 )
 
@@ -11,6 +14,7 @@ type API struct {
 	Hits  int
 	Cache map[string]string
 	H     http.Handler
+	Mws   []Mw
 }
 
 var counter int
@@ -67,3 +71,77 @@ func (rt *API) Serve(w http.ResponseWriter, r *http.Request) { // clean
 	w.Write(specBs)
 	rt.H.ServeHTTP(w, r)
 }
+
+type Mw func(http.Handler) http.Handler
+
+type List [][]string
+
+type Obj struct {
+	Tags []string
+	Next *Obj
+}
+
+func (rt *API) RevServe() { // want shared-data-read-only
+	mws := rt.Mws
+	slices.Reverse(mws)
+	defer slices.Reverse(mws)
+}
+
+func (rt *API) Chain(h http.Handler) http.Handler { // clean
+	for i := len(rt.Mws) - 1; i >= 0; i-- {
+		h = rt.Mws[i](h)
+	}
+	return h
+}
+
+func chain(h http.Handler, ms ...Mw) http.Handler { // want shared-data-read-only
+	slices.Reverse(ms)
+	for _, m := range ms {
+		h = m(h)
+	}
+	return h
+}
+
+func (rt *API) ChainVia(h http.Handler) http.Handler { return chain(h, rt.Mws...) } // clean
+
+func (c List) FixNil() { // want shared-data-read-only
+	for i := range c {
+		if c[i] == nil {
+			c[i] = []string{}
+		}
+	}
+}
+
+func (c List) FixNilCopy() int { // clean
+	n := 0
+	for _, cv := range c {
+		if cv == nil {
+			cv = []string{}
+		}
+		n += len(cv)
+	}
+	return n
+}
+
+func (c Obj) Normalise() []string { // clean
+	if c.Tags == nil {
+		c.Tags = []string{}
+	}
+	return c.Tags
+}
+
+func (c Obj) Scribble() { c.Tags[0] = "x" } // want shared-data-read-only
+
+func (c Obj) Deep() { c.Next.Tags = nil } // want shared-data-read-only
+
+func (c Obj) Sorted() { sort.Strings(c.Tags) } // want shared-data-read-only
+
+func (c Obj) Grow() []string { return append(c.Tags, "x") } // want shared-data-read-only
+
+func (c Obj) GrowCopy() []string { return append(c.Tags[:len(c.Tags):len(c.Tags)], "x") } // clean
+
+func helperSort(ss []string) { sort.Strings(ss) } // want shared-data-read-only
+
+func (c Obj) ViaHelper() { helperSort(c.Tags) } // clean
+
+func (c Obj) Joined() string { return strings.Join(c.Tags, ",") } // clean
